@@ -151,6 +151,10 @@ pub fn statement_cases() -> Vec<Case> {
         ("seed-random-max", "VAR imax = 2147483647\n~ SEED_RANDOM(imax)\nStart {RANDOM(1, 6)} {RANDOM(1, 6)}.\n-> END\n"),
         ("seed-random-negative", "LIST colours = (red), (green), (blue)\n~ SEED_RANDOM(0 - 7)\nStart {RANDOM(1, 6)} {LIST_RANDOM(colours)} {LIST_RANDOM(colours)} {~a|b|c} {RANDOM(1, 6)} {LIST_RANDOM(colours)}.\n-> END\n"),
         ("seed-random-min", "LIST colours = (red), (green), (blue)\nVAR imin = 0\n~ imin = (0 - 2147483647) - 1\n~ SEED_RANDOM(imin)\nStart {RANDOM(1, 6)} {LIST_RANDOM(colours)} {LIST_RANDOM(colours)} {~a|b|c} {RANDOM(imin, 0 - 1)}.\n-> END\n"),
+        ("ref-argument-undeclared-temp", "VAR g = 0\n{ g == 1:\n    ~ temp x = 1\n}\n~ bump(x)\ndone {g}\n-> END\n=== function bump(ref a) ===\n~ a = a + 1\n"),
+        ("ref-argument-knot-name", "VAR g = 0\n~ bump(k)\ndone {g}\n-> END\n=== function bump(ref a) ===\n~ a = a + 1\n=== k ===\nIn k.\n-> END\n"),
+        ("empty-shuffle-block", "Start.\n{ shuffle:\n}\nAfter.\n{ cycle:\n}\nEnd.\n-> END\n"),
+        ("thread-recursion", "Start.\n<- a(40)\nEnd.\n-> END\n=== a(n) ===\n{n == 0: -> DONE}\n<- a(n - 1)\n-> DONE\n"),
         ("turns-since-int", "Start {TURNS_SINCE(3)}.\n-> END\n"),
         ("read-count-of-int", "VAR t = 3\nStart {READ_COUNT(t)}.\n-> END\n"),
         ("list-range-wrong-types", "LIST l = a, (b), c\nStart {LIST_RANGE(l, \"x\", true)} {LIST_RANGE(3, 1, 2)}.\n-> END\n"),
@@ -209,6 +213,8 @@ fn probes(prog: &Prog) -> Vec<Vec<Op>> {
     // a host jump to a bare index (past the end of the root container) and into the middle of one
     v.push(vec![Op::ChoosePath("7".into(), true), Op::Cont]);
     v.push(vec![Op::ChoosePath("0.1".into(), false), Op::Cont]);
+    // ... and past the end of a nested position, then on to the end and a save
+    v.push(vec![Op::ChoosePath("0.99".into(), true), Op::Cont, Op::Save]);
     for (f, np) in prog.functions.iter().take(2) {
         v.push(vec![Op::Eval(f.clone(), (0..*np).map(|_| crate::inst::Val::Int(1)).collect())]);
     }
@@ -532,8 +538,29 @@ pub fn run(tier: Tier) -> i32 {
                     let Some((rh, _)) = rel.get(&i) else { continue };
                     profile_compared += 1;
                     let dh: u64 = f[1].parse().unwrap_or(0);
-                    if dh != *rh {
+                    // (VERIF_C04_SELFTEST_DIFF=<index> pretends that one case differed, to exercise
+                    // the confirmation below)
+                    let pretend = std::env::var("VERIF_C04_SELFTEST_DIFF").ok().and_then(|s| s.parse::<usize>().ok()) == Some(i);
+                    if dh != *rh || pretend {
                         let c = &cases[i];
+                        // a failure must reproduce before it is believed: the case alone, in a
+                        // fresh process of each build (the replay path, run twice inside)
+                        let art_path = format!("/verif/out/c04_confirm_{i}.json");
+                        let _ = std::fs::write(&art_path, json!({"check": "c04", "case": c.id, "source": c.source}).to_string());
+                        let alone = |bin: &str| -> Option<String> {
+                            let out = std::process::Command::new(bin).args(["C04", "--replay", &art_path]).output().ok()?;
+                            let text = String::from_utf8_lossy(&out.stdout).to_string();
+                            let keep: Vec<&str> = text.lines().filter(|l| l.starts_with("compiled=") || l.starts_with("transcript hash")).collect();
+                            if keep.len() == 2 { Some(keep.join(" ")) } else { None }
+                        };
+                        let rel_bin = std::env::current_exe().ok().and_then(|p| p.to_str().map(|s| s.to_string())).unwrap_or_default();
+                        let (a, b) = (alone(dbg_bin), alone(&rel_bin));
+                        let _ = std::fs::remove_file(&art_path);
+                        if a.is_some() && a == b {
+                            stats.inc("profile_diff_not_reproduced_alone");
+                            stats.notes.push(format!("{}: the two builds' transcripts differed inside the big run but are identical when the case runs alone in a fresh process of each build (not counted)", c.id));
+                            continue;
+                        }
                         let feature = if c.family == "corpus-mutant" { "corpus-mutant".to_string() } else { c.feature.clone() };
                         let dbg_panics = f[3];
                         stats.violation(Violation {
